@@ -1,6 +1,7 @@
 """C19 — sparse arrays (lib/arr.c): proof on HawkModel.Arr + correspondence with the real code."""
 import os, itertools, time
 from .. import common as C
+from .. import ctie
 
 IDX_POOL = [0, 1, 2, 3, 63, 64, 65, 127, 128, 129, 255, 256, 1000, 1000000]
 ORCS = ["-"] * 12 + ["f", "sf", "sff", "sfff", "ss", "fs", "sfs"]
@@ -391,6 +392,7 @@ def hawk_level(ctx, libdir):
 def run(ctx):
     t0 = time.time()
     proof = C.prove(ctx, "HawkModel.Props.C19", leanchecker=(ctx.tier == "thorough"))
+    tie = ctie.tie(ctx, "C19", leanchecker=(ctx.tier == "thorough"))   # capacity arithmetic of arr.c: translated C = model
     libdir = C.build_libhawk(ctx)
     exe = C.cc_harness(ctx, os.path.join(C.VERIF, "harness", "arr_h.c"), link_lib=libdir)
     rng = ctx.rng
@@ -508,11 +510,11 @@ def run(ctx):
     evaluations += hawk_level(ctx, libdir)
     nontriv = len({tuple(b) for b in blocks if nontrivial_signature(b)})
     samples = [" ; ".join(b[:8]) for b in blocks[ncorpus and 1 or 0:][-3:]] + [" ; ".join(blocks[len(blocks) // 2][:10])]
-    return C.finish(ctx, [proof], evaluations, nontriv,
+    return C.finish(ctx, [proof] + tie, evaluations, nontriv,
                     "histories = corpus + all 16^3 sequences over a 16-op alphabet + seeded random histories (indices around 0/63..65/127..129/1000/10^6 and size±1, allocator refusal scripts) + random heap histories + heaps with position back-pointers (all 24 push orders of 4 keys x every delete/update/pop, and random histories) + stack push/pop + machine-word extremes (positions/counts/capacities around 2^61, 2^63, 2^64 with scripted refusals) + retry-loop scripts (k refusals then a grant) + hawk-level hawk::array / str::splita programs and @argv reads; "
                     "every op's return value, callback events and full (size,tally,capa,slot table) dump compared with the Lean model; distinct_nontrivial = distinct histories containing growth to index>=128 or a shifting delete after an insert",
                     samples, extra_cov=dict(op_distribution=dist, histories=len(blocks), impl_status=status),
-                    trusted=["arr.c modelled by hand in HawkModel/Arr.lean (slot table beyond `size` not modelled; payload = small integers; INLINE copier not exercised)",
+                    trusted=[ctie.TRUSTED % "C19", "arr.c modelled by hand in HawkModel/Arr.lean (slot table beyond `size` not modelled; payload = small integers; INLINE copier not exercised)",
                              "heap_pos_offset back-pointers: items modelled as (key,pos) values; a slot store and its HEAP_UPDATE_POS are one model step (`stamp`), pointer aliasing inside a sift is not modelled but every dump compares each item's pos field",
                              "hawk_arr_walk/rwalk (caller-directed traversal) are not modelled"],
                     assumptions=["allocator modelled as an oracle answering each request", "64-bit hawk_oow_t and 8-byte slot pointers (checked by the harness at start); arithmetic on positions below maxCapa = (2^64-1)/8 does not wrap (insert refuses larger ones first)"])
